@@ -586,6 +586,9 @@ func genStashForm(rt *rapid.T, ctl bool) []string {
 		line += body
 		if i == n-1 {
 			line += ")"
+		} else if rapid.IntRange(0, 3).Draw(rt, "comment") == 0 {
+			// a comment to the end of the line: the line break after it is part of the form's syntax
+			line += rapid.SampledFrom([]string{" ; note", " ;c", " ;; (x)"}).Draw(rt, "commenttext") // (after a blank: slip's reader takes a ; that touches a token for a parse error)
 		}
 		f[i] = line + genBlank(rt, "trail")
 	}
